@@ -3,6 +3,10 @@ C08 — Expressions behave exactly like numpy arrays of affine functions.
 Property theorems about `Model/Wiring.lean` (+ `Model/Lin.lean`).
 -/
 import SageoptModel.Model.Wiring
+import SageoptModel.Lemmas.LinValue
+import SageoptModel.Lemmas.WiringNatural
+import SageoptModel.Lemmas.WiringNF
+import SageoptModel.Lemmas.WiringIntro
 
 namespace Sageopt.Props.C08
 open Sageopt Sageopt.Wiring
@@ -11,5 +15,129 @@ open Sageopt Sageopt.Wiring
 theorem apply_lengths (w : Wire) (ins : List Lin) (xs : List Rat) :
     (applyLin w ins).length = (applyNum w xs).length := by
   simp [applyLin, applyNum]
+
+/-- NATURALITY: any operator given by a wiring commutes with evaluation, for EVERY assignment:
+    the value of the Expression result is the numeric operator applied to the values of the arguments -/
+theorem wiring_natural (w : Wire) (ins : List Lin) (σ : Nat → Rat) :
+    (applyLin w ins).map (Lin.value σ) = applyNum w (ins.map (Lin.value σ)) :=
+  applyLin_value w ins σ
+
+/-- wirings compose (numerically) … -/
+theorem wiring_comp (w2 w1 : Wire) (hlen : w1.rows.length = w1.off.length) (xs : List Rat) :
+    applyNum (compose w2 w1) xs = applyNum w2 (applyNum w1 xs) :=
+  applyNum_compose w2 w1 hlen xs
+
+/-- … hence naturality holds for every straight-line program: running the steps one after another on
+    Expressions and then evaluating equals running them on the values -/
+def runLin (prog : List Wire) (ins : List Lin) : List Lin := prog.foldl (fun acc w => applyLin w acc) ins
+def runNum (prog : List Wire) (xs : List Rat) : List Rat := prog.foldl (fun acc w => applyNum w acc) xs
+
+theorem program_natural (prog : List Wire) (ins : List Lin) (σ : Nat → Rat) :
+    (runLin prog ins).map (Lin.value σ) = runNum prog (ins.map (Lin.value σ)) := by
+  unfold runLin runNum
+  induction prog generalizing ins with
+  | nil => rfl
+  | cons w prog ih =>
+    rw [List.foldl_cons, List.foldl_cons, ih, wiring_natural]
+
+/-- normal form of an affine cell: variables strictly increasing, no zero coefficient, not poisoned -/
+def NF (x : Lin) : Prop := x.co.Pairwise (fun p q => p.1 < q.1) ∧ (∀ p ∈ x.co, p.2 ≠ 0) ∧ x.bad = false
+
+/-- `NF` is the bundled predicate of `Lemmas/WiringNF.lean` -/
+theorem nf_iff (x : Lin) : NF x ↔ NFco x := Iff.rfl
+
+/-- the arithmetic keeps cells in normal form (so introspection is meaningful on every result) -/
+theorem add_nf (x y : Lin) (hx : NF x) (hy : NF y) : NF (Lin.add x y) := add_nfco x y hx hy
+
+theorem scale_nf (q : Rat) (x : Lin) (hx : NF x) : NF (Lin.scale q x) := scale_nfco q x hx
+
+theorem applyLin_nf (w : Wire) (ins : List Lin) (h : ∀ x ∈ ins, NF x) : ∀ y ∈ applyLin w ins, NF y :=
+  applyLin_nfco w ins h
+
+/-- INTROSPECTION = support of the value function: the value depends on a scalar variable iff it is reported -/
+theorem depends_iff (x : Lin) (hx : NF x) (i : Nat) :
+    i ∈ support x ↔ ∃ σ : Nat → Rat, ∃ t : Rat, Lin.value (Function.update σ i t) x ≠ Lin.value σ x :=
+  depends_iff_co x hx.1 hx.2.1 i
+
+theorem constant_iff (x : Lin) (hx : NF x) :
+    isAffineConst x = true ↔ ∀ σ σ' : Nat → Rat, Lin.value σ x = Lin.value σ' x :=
+  constant_iff_co x hx.1 hx.2.1
+
+/-- the symbolic equivalence test at zero tolerance: True only for functionally equal cells, and always for them -/
+theorem cellEquiv_sound (x y : Lin) (h : cellEquiv 0 0 x y = true) : ∀ σ : Nat → Rat, Lin.value σ x = Lin.value σ y :=
+  cellEquiv_sound_co x y h
+
+theorem cellEquiv_complete (x y : Lin) (hx : NF x) (hy : NF y)
+    (h : ∀ σ : Nat → Rat, Lin.value σ x = Lin.value σ y) : cellEquiv 0 0 x y = true :=
+  cellEquiv_complete_co x y hx.1 hx.2.1 hy.1 hy.2.1 h
+
+/-! ### non-vacuity: `A @ x + b` with `A = [[1,2],[0,-1]]`, `b = [1,0]` on the cells `[x0 + 1, 2·x1]` -/
+
+/-- the wiring of `fun x => A @ x + b` (the explicit zero entry of `A` is kept) -/
+def wAb : Wire := { rows := [[(0, 1), (1, 2)], [(0, 0), (1, -1)]], off := [1, 0] }
+
+/-- the argument cells `x0 + 1` and `2·x1` -/
+def cells : List Lin := [⟨1, [(0, 1)], false⟩, ⟨0, [(1, 2)], false⟩]
+
+/-- the cells are what the arithmetic of `Lin` builds -/
+example : cells = [Lin.add (Lin.var 0) (Lin.const 1), Lin.scale 2 (Lin.var 1)] := by
+  with_unfolding_all decide
+
+/-- `A @ [x0+1, 2·x1] + b = [x0 + 4·x1 + 2, -2·x1]` -/
+example : applyLin wAb cells = [⟨2, [(0, 1), (1, 4)], false⟩, ⟨0, [(1, -2)], false⟩] := by
+  with_unfolding_all decide
+
+/-- the same wiring on numbers: `A @ [3, 10] + b = [24, -10]` -/
+example : applyNum wAb [3, 10] = [24, -10] := by
+  with_unfolding_all decide
+
+/-- naturality on this instance, at `x0 = 2`, `x1 = 5` (cells evaluate to `[3, 10]`) -/
+example : (applyLin wAb cells).map (Lin.value fun i => if i = 0 then 2 else 5) = [24, -10] := by
+  with_unfolding_all decide
+
+/-- the argument cells are in normal form … -/
+theorem cells_nf : ∀ x ∈ cells, NF x := by
+  intro x hx
+  simp only [cells, List.mem_cons, List.not_mem_nil, or_false] at hx
+  rcases hx with rfl | rfl
+  · refine ⟨by simp, ?_, rfl⟩
+    intro p hp
+    simp only [List.mem_cons, List.not_mem_nil, or_false] at hp
+    subst hp
+    with_unfolding_all decide
+  · refine ⟨by simp, ?_, rfl⟩
+    intro p hp
+    simp only [List.mem_cons, List.not_mem_nil, or_false] at hp
+    subst hp
+    with_unfolding_all decide
+
+/-- … hence so are the results (instance of `applyLin_nf`), and the introspection reports exactly the
+    variables the results depend on -/
+example : ∀ y ∈ applyLin wAb cells, NF y := applyLin_nf wAb cells cells_nf
+
+example : (applyLin wAb cells).map support = [[0, 1], [1]] := by
+  with_unfolding_all decide
+
+/-- a cell that is not in normal form (zero coefficient): the reported support is wrong -/
+example : ¬ NF ⟨0, [(0, 0)], false⟩ := by
+  intro h
+  exact h.2.1 (0, 0) List.mem_cons_self rfl
+
+/-- a two-step program: first `A @ x + b`, then the row sum `y0 + y1` -/
+def wSum : Wire := { rows := [[(0, 1), (1, 1)]], off := [0] }
+
+example : runLin [wAb, wSum] cells = [⟨2, [(0, 1), (1, 2)], false⟩] := by
+  with_unfolding_all decide
+
+example : runNum [wAb, wSum] [3, 10] = [14] := by
+  with_unfolding_all decide
+
+/-- the composed wiring is the one-step operator `x ↦ x0 + x1 + 1` (with the explicit zero product kept) -/
+example : applyNum (compose wSum wAb) [3, 10] = [14] := by
+  with_unfolding_all decide
+
+/-- `cellEquiv` at zero tolerance on the program's result -/
+example : cellEquiv 0 0 ((runLin [wAb, wSum] cells).getD 0 (Lin.const 0)) ⟨2, [(0, 1), (1, 2)], false⟩ = true := by
+  with_unfolding_all decide
 
 end Sageopt.Props.C08
